@@ -19,10 +19,18 @@ theorem range'_split (a m n : Nat) (h : m ≤ n) :
   conv => rhs; rw [this]
   rw [List.range'_append_1]
 
+theorem length_takeWhile_le' {α} (p : α → Bool) (l : List α) : (l.takeWhile p).length ≤ l.length := by
+  induction l with
+  | nil => simp
+  | cons x xs ih =>
+    by_cases hp : p x = true
+    · simp [List.takeWhile_cons, hp]; omega
+    · simp [List.takeWhile_cons, hp]
+
 theorem trailStart_bounds (toks : List TK) (a b : Nat) (h : a ≤ b) :
     a ≤ trailStart toks a b ∧ trailStart toks a b ≤ b := by
   unfold trailStart
-  have h1 := List.length_takeWhile_le (fun k => k == TK.ws || k == TK.eol) ((toks.drop a).take (b - a)).reverse
+  have h1 := length_takeWhile_le' (fun k => k == TK.ws || k == TK.eol) ((toks.drop a).take (b - a)).reverse
   have h2 : ((toks.drop a).take (b - a)).reverse.length ≤ b - a := by
     simp [List.length_take]; omega
   omega
@@ -159,7 +167,7 @@ theorem triviaStep_inv (toks : List TK) (d : Bool) (start i : Nat) (st : TS) (hs
         rw [← hc, range'_snoc a i ha2, List.append_assoc]
   | eof =>
     have ht : trivAt toks i = false := by simp [trivAt, hget, hk, TK.isTrivia]
-    simp only [ht, List.append_nil]
+    simp only [ht, Bool.false_eq_true, if_false, List.append_nil]
     cases hds : st.docStart with
     | none =>
       simp only [pending, hds, List.append_nil] at hc
@@ -175,7 +183,7 @@ theorem triviaStep_inv (toks : List TK) (d : Bool) (start i : Nat) (st : TS) (hs
         exact hc
   | other =>
     have ht : trivAt toks i = false := by simp [trivAt, hget, hk, TK.isTrivia]
-    simp only [ht, List.append_nil]
+    simp only [ht, Bool.false_eq_true, if_false, List.append_nil]
     cases hds : st.docStart with
     | none =>
       simp only [pending, hds, List.append_nil] at hc
@@ -228,7 +236,7 @@ theorem parseTrivia_cover (toks : List TK) (d : Bool) (start next : Nat) (h1 : s
 theorem skipTrivia_le (toks : List TK) (i : Nat) (h : i ≤ toks.length) :
     i ≤ skipTrivia toks i ∧ skipTrivia toks i ≤ toks.length := by
   unfold skipTrivia
-  have := List.length_takeWhile_le TK.isTrivia (toks.drop i)
+  have := length_takeWhile_le' TK.isTrivia (toks.drop i)
   simp [List.length_drop] at this
   omega
 
@@ -344,5 +352,70 @@ theorem bumpAll_cover (toks : List TK) (d : Bool) (hne : ∀ k ∈ toks, k ≠ T
     | some s' =>
       obtain ⟨h1, h2, h3⟩ := bump_cover toks d s s' hne hc hb
       exact ih s' h1 h3 (by omega)
+
+/-- state invariant of the token layer -/
+def PInv (toks : List TK) (s : PS) : Prop :=
+  cover s.events = List.range s.idx ∧ s.idx ≤ toks.length
+
+theorem bump_none_iff (toks : List TK) (d : Bool) (s : PS) : bump toks d s = none ↔ toks.length ≤ s.idx := by
+  unfold bump
+  constructor
+  · intro h
+    split at h
+    · rename_i hn; exact List.getElem?_eq_none_iff.mp hn
+    · cases h
+  · intro h
+    rw [List.getElem?_eq_none_iff.mpr h]
+
+theorem bumpN_inv (toks : List TK) (d : Bool) (hne : ∀ k ∈ toks, k ≠ TK.eof) (n : Nat) (s : PS)
+    (h : PInv toks s) : PInv toks (bumpN toks d n s) ∧ s.idx ≤ (bumpN toks d n s).idx := by
+  induction n generalizing s with
+  | zero => exact ⟨h, Nat.le_refl _⟩
+  | succ n ih =>
+    unfold bumpN
+    cases hb : bump toks d s with
+    | none => exact ⟨h, Nat.le_refl _⟩
+    | some s' =>
+      obtain ⟨h1, h2, h3⟩ := bump_cover toks d s s' hne h.1 hb
+      obtain ⟨i1, i2⟩ := ih s' ⟨h1, h3⟩
+      exact ⟨i1, by simp only; omega⟩
+
+/-- one iteration of the `parse_chunk` loop keeps the invariant and strictly advances -/
+theorem chunk_step (toks : List TK) (d : Bool) (hne : ∀ k ∈ toks, k ≠ TK.eof) (g : PS → Nat) (s : PS)
+    (h : PInv toks s) (hlt : s.idx < toks.length) :
+    let s1 := bumpN toks d (g s) s
+    let s2 := if s1.idx == s.idx then (bump toks d s1).getD s1 else s1
+    PInv toks s2 ∧ s.idx < s2.idx := by
+  obtain ⟨i1, i2⟩ := bumpN_inv toks d hne (g s) s h
+  simp only []
+  split
+  · rename_i heq
+    have heq' : (bumpN toks d (g s) s).idx = s.idx := by simpa using heq
+    cases hb : bump toks d (bumpN toks d (g s) s) with
+    | none =>
+      have := (bump_none_iff toks d _).mp hb
+      omega
+    | some s' =>
+      obtain ⟨h1, h2, h3⟩ := bump_cover toks d _ s' hne i1.1 hb
+      exact ⟨⟨h1, h3⟩, by simp only [Option.getD]; omega⟩
+  · rename_i hneq
+    have : (bumpN toks d (g s) s).idx ≠ s.idx := by simpa using hneq
+    exact ⟨i1, by omega⟩
+
+theorem chunkLoop_spec (toks : List TK) (d : Bool) (hne : ∀ k ∈ toks, k ≠ TK.eof) (g : PS → Nat)
+    (f : Nat) (s : PS) (h : PInv toks s) (hf : toks.length ≤ s.idx + f) :
+    PInv toks (chunkLoop toks d g f s) ∧ (chunkLoop toks d g f s).idx = toks.length := by
+  induction f generalizing s with
+  | zero =>
+    have : s.idx = toks.length := by have := h.2; omega
+    exact ⟨h, this⟩
+  | succ f ih =>
+    unfold chunkLoop
+    split
+    · rename_i hge
+      exact ⟨h, by have := h.2; omega⟩
+    · rename_i hlt
+      obtain ⟨h1, h2⟩ := chunk_step toks d hne g s h (by omega)
+      exact ih _ h1 (by omega)
 
 end Core
